@@ -25,7 +25,9 @@ PLANS = {
         ("d3ctx-rep-1dev", 3, "REP", 1, None),
     ],
 }
-ALPHABETS = {"FULL": g.GAPS_FULL, "REP": g.GAPS_REP}
+PLANS["purity"] = [("d1-full-1dev", 1, "FULL", 1, None), ("d1-rep-2dev", 1, "REP", 2, 2), ("d2-mini-1dev", 2, "MINI", 1, None)]
+PLANS["purity-thorough"] = [("d1-full-2dev", 1, "FULL", 2, 2), ("d2-rep-1dev", 2, "REP", 1, None)]
+ALPHABETS = {"FULL": g.GAPS_FULL, "REP": g.GAPS_REP, "MINI": [" ", "\n", " # c§\n", "\n# c§\n", " /* c§ */ ", "\n\n"]}
 # depth-3: outer contexts (one construct per context kind named in DESIGN 1.3)
 D3_CONTEXTS = ["set1", "list", "let", "lam", "call", "paren", "with", "if", "assert", "concat", "select", "inheritfrom"]
 
@@ -298,6 +300,8 @@ def run(prop: str, tier: str) -> core.Report:
         "C03": "admitted cases containing at least one comment",
         "C06": "admitted cases whose comments all sit alone on a line or end a line (the property's precondition)",
         "C18": "every admitted case",
+        "C15": "every admitted case (purity of rebuild)",
+        "C20": "every admitted case",
     }
     coverage = {
         "evaluations": total["evaluations"],
